@@ -1,9 +1,13 @@
 """C01 - every request yields exactly one well-formed response; errors are contained.
 
-Model: lean/CpModel/{Hooks,Pipeline,Wsgi}.lean (shared with C09), theorems: lean/CpProofs/C01.lean,
-driver: lean/Drv/C01.lean.  Real code: harness/pipeline_common.py (fault plans on a real Application called
-in-process through its WSGI interface) plus a second, oracle-only stream of arbitrary environs against an
-application with total handlers and the default tools switched on.
+Model: lean/CpModel/{Hooks,Pipeline,Wsgi}.lean (shared with C09) + lean/CpModel/{WsgiBoundary,RedirQ}.lean (body
+iterators that misbehave at the WSGI boundary, InternalRedirector with query strings), theorems:
+lean/CpProofs/{C01,C01Boundary,C01Redirect}.lean, driver: lean/Drv/C01.lean.  Real code: harness/pipeline_common.py
+(fault plans on a real Application called in-process through its WSGI interface), harness/c01_boundary.py (B-plans:
+body shape x misbehaving iterator x stream x tools x consumption / close() schedule; R-plans: InternalRedirect chains
+and loops with and without query strings; both under step / wall-clock guards so that a hang of the code under test
+is an observation), plus an oracle-only stream of arbitrary environs against an application with total handlers and
+the default tools switched on.
 """
 import io
 import json
@@ -67,9 +71,12 @@ THEOREMS = [
     'CpProofs.C01Redirect.internalRedirector_terminates',
 ]
 TRUSTED_BASE = [
-    'Python semantics transcribed by hand: try/except/finally nesting, exception replacement, generator protocol',
-    'header names/values are not modelled (C12 covers their content); str/Latin-1 typing of the pairs is checked by '
-    'the oracle only',
+    'Python semantics transcribed by hand: try/except/finally nesting, exception replacement, generator protocol '
+    '(close() of an unstarted / suspended / finished generator, finally blocks that raise), bytes.join consuming its '
+    'argument before type-checking it',
+    'header names/values are not modelled (C12 covers their content); the model knows the *types* an on_end_resource '
+    'hook can leave in output_status / header_list and what AppResponse.__init__ makes of them',
+    'tools (encode, gzip, etags) wrapping the body are exercised against the oracle only',
 ]
 ASSUMPTIONS = [
     'user callbacks return or raise HTTPError / HTTPRedirect / InternalRedirect / Exception; KeyboardInterrupt/SystemExit '
@@ -79,9 +86,10 @@ ASSUMPTIONS = [
 ]
 LEVEL = 'proof'
 TECHNIQUE = ('Lean 4 proof over a transcription of Request.run/respond/handle_error, Response.finalize, set_response, '
-             'AppResponse, InternalRedirector, ExceptionTrapper for all fault plans; negation with witnesses for the '
-             'traceback-leak clause; model tied to the code by a differential comparison on generated fault plans, plus an '
-             'oracle-only stream of arbitrary WSGI environs')
+             'AppResponse (type checks, __next__, close), ResponseBody.__set__, InternalRedirector (with query strings), '
+             'ExceptionTrapper for all fault plans / body iterators / redirect functions; negation with witnesses for the '
+             'traceback-leak and bytes-chunk clauses; model tied to the code by a differential comparison on generated '
+             'plans at the real WSGI boundary (with hang guards), plus an oracle-only stream of arbitrary WSGI environs')
 LEVEL_TEXT = ('Proved in Lean for every fault plan (unbounded hook lists, any outcome at any callback site, any redirect '
               'chain): nothing escapes the WSGI callable / iteration / close; the redirect loop terminates within the '
               'page count; start_response is called with a status in 100..599 exactly once without exc_info, a second '
@@ -90,11 +98,30 @@ LEVEL_TEXT = ('Proved in Lean for every fault plan (unbounded hook lists, any ou
               'text is sent EXCEPT in one proved-false case (F2: failing error_page callable), for which the negation is '
               'proved with a witness replayed on the real code; F1 (trapper-level 500 after the request was released) is '
               'repaired and proved repaired. '
-              'Partial: header pairs (str, Latin-1) and chunk types are checked by the oracle only, not modelled.')
+              'WSGI boundary (second model, every body shape / item sequence / failing __next__, close(), finally, '
+              'read(), every number of next and close() calls): nothing escapes; start_response once (+ once by the '
+              'trapper with exc_info); the body iterator\'s close() is called at most once, exactly once when a streamed '
+              'closable iterator is closed by the server, never without response.stream or without a close() call, its '
+              'failure is logged and dropped; the request is released exactly once; a non-bytes status / header item '
+              'reaching AppResponse.__init__ becomes the trapper\'s 500 (tables of rejected kinds generated by executing '
+              'the code); a str body / list containing a str becomes a 500 error page; every chunk is a byte string iff '
+              '__next__ checks it - it does not in the unchanged code (finding F3, negation proved with a witness, '
+              '_partial proved for bodies assembled before the response starts or yielding bytes only). '
+              'InternalRedirector: for every redirect function (history dependent) whose targets\' keys lie in a list T the '
+              'loop ends after at most |T|+1 requests, fuel-independent, no key requested twice. '
+              'Oracle only: tools wrapping the body, error_page callables of other return types, status strings.')
 LEVEL_NOTE = ('Trusted: Lean kernel (axioms propext, Classical.choice, Quot.sound only); the hand model '
               'lean/CpModel/{Hooks,Pipeline,Wsgi}.lean as validated by the differential run; the harness. Header contents '
               'are outside the model.')
-RULE = ('stream 1: fault plans as in C09 (1-3 pages, 0-5 hooks per point, outcome per callback site, handler shape x status, '
+RULE = ('stream 0 (boundary): B-plans = body shape (bytes, empty, str, None, non-iterable, list, tuple, generator, iterator '
+        'object, iterable, file-like) x item types (bytes, b\'\', str, int, raise; up to 3-4 items) x failure at exhaustion x '
+        'close() absent / ok / raising / needing an argument (generator: finally raises) x response.stream x tools (none, '
+        'encode, gzip, encode+gzip, etags) x GET/HEAD x explicit Content-Length x no-body status x tampered status / '
+        'header types x error_page callable return types x (next calls: all / 0 / 1 / 2 / 3, close() calls 0-3); R-plans = '
+        'sites of 1-4 pages with redirect rules (always / only with / without query string / first k requests), targets '
+        'absolute / relative, with / without query string, fixed / unchanged / counting query, start URL with / without '
+        'query, GET/POST/HEAD; systematic grids + random; distinct = distinct plan line; '
+        'stream 1: fault plans as in C09 (1-3 pages, 0-5 hooks per point, outcome per callback site, handler shape x status, '
         'stream bit, GET/HEAD/POST, partial reads, 0-3 close() calls, show_tracebacks per page and global) + single-fault '
         'placements x handler shapes x show_tracebacks; non-trivial = some callback site raised or the handler body is not '
         'plain bytes; stream 2 (oracle only): random WSGI environs (method token, Latin-1 path/query, header lists, bodies, '
